@@ -8,7 +8,7 @@ state and any fee deduction:
 * `onchain_eq_execute_postfee` — the outputs of `Transaction.Execute` are the outputs of
   `ExecuteActions` on the state *after the fee was deducted* (for actions that stay inside
   their own declared keys, i.e. the API reply is not a permission error — property C05);
-* `execute_outputs_eq_onchain` — the property under the reading adopted in DESIGN: if the
+* `execute_outputs_eq_onchain_partial` — the property under the reading adopted in DESIGN: if the
   fee deduction only changes keys on which no action holds any permission (the actions do not
   read the sponsor's fee key), the API outputs on the *same* state equal the on-chain outputs;
 * `strict_reading_counterexample` — the strict reading fails on the unchanged code for the
@@ -227,11 +227,12 @@ theorem execute_agree {F : Key → Prop} :
         | err e => rfl
         | perm => rfl
 
-/-- **execute_outputs_eq_onchain** (reading adopted in DESIGN §5 C30): when the fee deduction
+/-- **execute_outputs_eq_onchain_partial** (PARTIAL w.r.t. the statement read strictly — it
+holds only when the fee key is not touched; reading adopted in DESIGN §5 C30): when the fee deduction
 changes only keys `F` on which no action holds a permission, and the actions stay within their
 own declared keys, the outputs of `ExecuteActions` on the current state are exactly the
 outputs of `Transaction.Execute` on that state. -/
-theorem execute_outputs_eq_onchain (deduct : State → Option State) (sponsor : Scope) (s s' : State)
+theorem execute_outputs_eq_onchain_partial (deduct : State → Option State) (sponsor : Scope) (s s' : State)
     (acts : List Action) (F : Key → Prop)
     (hfee : deduct s = some s') (hagree : Agree F s s')
     (hnofee : ∀ a ∈ acts, ∀ k, F k → a.keys k = Perm.none)
@@ -355,9 +356,10 @@ theorem simulated_keys_sufficient :
       | err e => cases h
       | perm => cases h
 
-/-- and therefore a transaction that declares them reproduces the simulated outputs on the
+/-- PARTIAL (same post-fee dependence: the simulation must be taken on the state *after* the fee
+deduction, `s'`, not on the state the API sees): a transaction that declares them reproduces the simulated outputs on the
 post-fee state (combine with `execute_outputs_eq_onchain` for the same state). -/
-theorem simulated_keys_sufficient_onchain (deduct : State → Option State) (sponsor : Scope)
+theorem simulated_keys_sufficient_onchain_partial (deduct : State → Option State) (sponsor : Scope)
     (s s' : State) (progs : List Prog) (rs : List (Out × Scope)) (acts : List Action)
     (hfee : deduct s = some s') (hsim : simulateActions s' progs = some rs)
     (hd : Declares progs rs acts) :
@@ -366,6 +368,33 @@ theorem simulated_keys_sufficient_onchain (deduct : State → Option State) (spo
   rw [onchain_eq_execute_postfee deduct sponsor s acts
     (fun t ht => by rw [hfee] at ht; cases ht; rw [he]; simp), hfee]
   simp [he]
+
+/-! ### admission limits -/
+
+/-- `SimulateActions` has no action limit: a list above `MaxActionsPerTx` simulates exactly like
+any other list, while `ExecuteActions` refuses it and a transaction with it is never executed.
+Such lists are outside the property's quantifier; recorded as a note, probed by the tie. -/
+theorem simulate_above_limit (deduct : State → Option State) (sponsor : Scope) (s : State)
+    (acts : List Action) (h : acts.length > maxActions) :
+    executeActionsRPC s acts = none ∧ (∃ r, onchainTx deduct sponsor s acts = r ∧ r matches .tooMany) ∧
+      simulateActionsRPC s (acts.map (·.prog)) = simulateActions s (acts.map (·.prog)) := by
+  refine ⟨by simp [executeActionsRPC, h], ⟨_, rfl, by simp [onchainTx, h]⟩, ?_⟩
+  have : (acts.map (·.prog)).isEmpty = false := by
+    cases acts with
+    | nil => simp at h
+    | cons a r => rfl
+  simp [simulateActionsRPC, this]
+
+/-- within the limit the entry points are the plain functions the theorems above speak about -/
+theorem within_limit (deduct : State → Option State) (sponsor : Scope) (s : State)
+    (acts : List Action) (h0 : acts ≠ []) (h : acts.length ≤ maxActions) :
+    executeActionsRPC s acts = some (executeActions s acts) ∧
+      (∀ r, onchain deduct sponsor s acts = some r → (onchainTx deduct sponsor s acts matches .executed _)) := by
+  refine ⟨?_, ?_⟩
+  · have : acts.isEmpty = false := by cases acts with | nil => exact absurd rfl h0 | cons _ _ => rfl
+    simp [executeActionsRPC, this, Nat.not_lt.mpr h]
+  · intro r hr
+    simp [onchainTx, Nat.not_lt.mpr h, hr]
 
 /-! ### non-vacuity -/
 
